@@ -86,6 +86,12 @@ CHECKS["C12"] = (TV, "compiler run concretely (reject / unbuildable are allowed 
     "compiler decides first; only programs it accepts AND whose output type-checks reach the solver, which decides source-vs-generated log equality for all inputs (goto, labels, "
     "fallthrough and defer are executed natively from the source SSA). A violation is exactly 'builds and behaves differently'. select / go are not executable by the engine: undecided.", "§6 C12")
 
+CHECKS["C14"] = (MC, "bounded symbolic execution (SSA->SMT, z3) of compiled generators under all interleavings of k iterators, plus heap-footprint disjointness",
+    "For compiled corpus generators (loops, locals, closures, delegation incl. a recursive delegator) a driver drains k iterators alone and then advances fresh instances under every "
+    "interleaving that gives each exactly m steps (forked by the executor; k=2,m=3 quick, k=3,m=3 thorough); arguments are symbolic and the solver decides that each iterator's "
+    "log (yields + generator-side effects) equals its solo log. The goroutine clause is NOT decided as stated: goroutines are not modelled; instead the engine tags every heap "
+    "access with the iterator being advanced and asserts that no cell written under one is touched under another (footprint non-interference).", "§6 C14")
+
 NA = {
     "C11": "compiler acceptance/buildability is decided by the compiler pipeline itself (go/packages, go/types, reflection-based AST rewriting, printer, file system); it cannot be encoded by an SSA->SMT translator and has no symbolic dimension once a program is fixed — enumeration of concrete compiler runs would be a different technique (DESIGN §7)",
     "C15": "byte-identical output across runs/configurations is a statement about repeated process runs, map iteration in the compiler and leftovers on disk; no symbolic inputs and the code is not encodable (DESIGN §7)",
